@@ -29,6 +29,8 @@ from ..kit import cz, cq, czl, cql, cnat, frac, VERIF
 HDR = ("From Coq Require Import ZArith QArith List.\nFrom NV.Lib Require Import C09Base Harness.\n"
        "From NV.Generated Require Import JointHist.\nFrom NV.C09 Require Import Model.\n")
 
+HDRPY = HDR + "From NV.C09 Require Import ModelPy.\n"
+
 TINY = F(*float(np.finfo(np.double).tiny).as_integer_ratio())
 
 
@@ -857,6 +859,54 @@ def helpers(ck):
         if not np.array_equal(lhs, rhs):
             ck.fail("subgrid_affine/spec", "voxel %s of the sub-grid is not voxel start+step*v of the image" % v.tolist(),
                     {"slices": [(s.start, s.stop, s.step) for s in sl], "affine": aff.tolist()})
+    # ---- correspondence with the Coq models of the helpers (exact inputs)
+    terms, meta = [], []
+    for n in range(ck.n(150, 1500)):
+        d = int(rng.integers(1, 7))
+        if n % 3 == 2 and d % 2 == 0:
+            dmax = d // 2                       # a = 1/2: exact half ties, np.round goes to even
+        else:
+            dmax = d * int(rng.integers(1, 4))  # a integer
+        bins = dmax + 1
+        size = int(rng.integers(2, 10))
+        lo = int(rng.integers(-5, 6))
+        x = (lo + rng.integers(0, d + 1, size=size)).astype(float)
+        mask = np.ones(size, bool) if n % 2 == 0 else rng.random(size) < 0.7
+        mask[0] = mask[-1] = True
+        x[0], x[-1] = lo, lo + d
+        y, b = hr.clamp(x, bins, mask=None if n % 2 == 0 else mask)
+        ck.count(("clamp-model", n), nontrivial=True, bucket="helpers:clamp-model")
+        terms.append("zlist_eqb (clamp_model %s %s %s) %s" % (cz(bins), cql([frac(v) for v in x]),
+                     "[" + "; ".join("true" if m else "false" for m in mask) + "]", czl([int(v) for v in y])))
+        meta.append(("clamp", {"x": x.tolist(), "bins": bins, "mask": mask.tolist(), "y": y.tolist()}))
+    for n in range(ck.n(60, 600)):
+        shape = tuple(int(v) for v in rng.integers(1, 6, size=3))
+        msk = rng.random(shape) < 0.3
+        if msk.sum() == 0:
+            msk[tuple(int(rng.integers(v)) for v in shape)] = True
+        corner, size = hr.smallest_bounding_box(msk)
+        w = np.where(msk > 0)
+        ck.count(("bbox-model", n), nontrivial=True, bucket="helpers:bbox-model")
+        for k in range(3):
+            cs = [int(v) for v in w[k]]
+            terms.append("(let '(c, s) := bbox_axis %s %s in Z.eqb c %s && Z.eqb s %s)" % (cz(cs[0]), czl(cs[1:]), cz(corner[k]), cz(size[k])))
+            meta.append(("bbox", {"mask": msk.astype(int).tolist(), "corner": corner.tolist(), "size": size.tolist()}))
+        sl = tuple(slice(int(rng.integers(0, 3)), int(rng.integers(3, 7)), int(rng.integers(1, 4))) for _ in range(3))
+        aff = np.eye(4)
+        aff[:3, :] = rng.integers(-8, 9, size=(3, 4)) / 4.0
+        sa = subgrid_affine(aff, sl)
+        rows3 = "[" + "; ".join("(%s, %s, %s, %s)" % tuple(cq(frac(v)) for v in aff[r]) for r in range(3)) + "]"
+        terms.append("qmat_eqb (sg_matrix_q %s %s %s %s %s %s %s) %s" % (
+            rows3, cq(sl[0].step), cq(sl[1].step), cq(sl[2].step), cq(sl[0].start), cq(sl[1].start), cq(sl[2].start),
+            "[" + "; ".join(cql([frac(v) for v in sa[r]]) for r in range(4)) + "]"))
+        meta.append(("subgrid_affine", {"affine": aff.tolist(), "slices": [(q.start, q.stop, q.step) for q in sl], "result": sa.tolist()}))
+    if ck.build is not None and ck.build.ok:
+        res = ck.coq_bools(HDRPY, terms, shard=200, name="helpers")
+        ck.cov["traces_validated_against_impl"] += len(res)
+        for ok, (what, replay) in zip(res, meta):
+            if not ok:
+                ck.fail("%s/model-vs-impl" % what, "Coq model of %s and implementation disagree on %s" % (what, replay), replay)
+                break
     ck.section("helpers", done=True)
 
 
